@@ -112,7 +112,7 @@ CHECKS = {
     "C13": dict(
         level="translation_validation", engine="equiv",
         technique="JSON / clone_model / HDF5 round trips executed concretely; every original/rebuilt layer pair proved equal for all inputs and weights by graph equivalence",
-        text="Generated quantized models (4 templates x seeded quantizer assignments over weight/activation/bias quantizer option pools) go through "
+        text="Generated quantized models (5 templates, one holding a QAdaptiveActivation, x seeded quantizer assignments over weight/activation/bias quantizer option pools) go through "
              "the three routes; success, topology, reported quantizers, restored weights and eager predictions are compared concretely and each "
              "layer pair is traced with shared symbolic input and weights: identical terms prove bit-identical behaviour for every value.",
         note="Layer classes that cannot be constructed under the pinned Keras 3 are outside the claim; graph-mode predict is not what is compared.",
@@ -148,9 +148,10 @@ CHECKS = {
         level="model_checking", engine="tfg2smt",
         technique="bounded SMT (QF_BVFP) over the graph traced under a learning-phase stub with the uniform draw as a free symbolic value; inference side by graph equivalence",
         text="Training phase: for all (x, r) the output is the floor- or ceil-code of the clipped surrogate, codes are unchanged, and the upper code "
-             "is chosen exactly when r <= frac (threshold form of unbiasedness).  Inference phase: the graph of every stochastic configuration / "
+             "is chosen exactly when r <= frac (threshold form of unbiasedness); for the power-of-two family the output is one of the two enclosing powers "
+             "of two, codes are unchanged and the threshold holds up to 2^-22.  Inference phase: the graph of every stochastic configuration / "
              "stochastic_* class is proved equal to its deterministic counterpart.",
-        note="K.learning_phase does not exist under the pinned Keras 3 and is stubbed; power-of-two / binary / ternary training-phase distributions are "
+        note="K.learning_phase does not exist under the pinned Keras 3 and is stubbed; binary / ternary training-phase distributions are "
              "not covered.",
         ref="DESIGN.md section 3 C08"),
     "C18": dict(
